@@ -114,4 +114,78 @@ def crossValidate {ε σ} [Add σ] [Div σ] [OfNat σ 0] [NatCast σ]
     let acc := fes.foldl (fun acc fe => addMat acc (addMat zero fe)) zero
     .ok (acc.map fun row => row.map fun x => x / (k : σ))
 
+/-! ### glue around the core: layout guard, the calling forms of cross-validation, counted labels -/
+
+/-- `iter_fold` as it is called on an arbitrary `DataMut` dataset: the two `assert!`s, then
+`records.as_slice_mut().unwrap()` / `targets.as_slice_mut().unwrap()` — `None` (a panic, as
+documented under "Panics") unless both arrays are contiguous in standard (row-major) order —
+then the in-place loop on the flat buffers.  `stdR` / `stdT` are ndarray's
+`is_standard_layout()` of the two arrays. -/
+def iterFoldLayout {α β} (stdR stdT : Bool) (n k p t : Nat) (recs : List α) (tgts : List β) :
+    Option (IterFoldOut α β) :=
+  if k = 0 ∨ n < k then none
+  else if stdR = false ∨ stdT = false then none
+  else iterFold n k p t recs tgts
+
+/-- one fold of `cross_validate` on real fit results: `fits[m]` is `parameters[m].fit(train)`,
+`score md` is `eval(md.predict(valid.records()), valid.targets())`.  All fits first
+(`collect::<Result<Vec<_>,_>>`), then predict + eval model by model (`?`). -/
+def cvFoldM {ε μ σ} (fits : List (Except ε μ)) (score : μ → Except ε (List σ)) :
+    Except ε (List (List σ)) :=
+  match fits.mapM id with
+  | .error e => .error e
+  | .ok ms => ms.mapM score
+
+/-- the scripted tables (`cvFold`'s arguments) that a fold with real fit results amounts to -/
+def scriptOf {ε μ σ} (fits : List (Except ε μ)) (score : μ → Except ε (List σ)) :
+    List (Except ε Unit) × List (Except ε (List σ)) :=
+  (fits.map (fun f => f.map fun _ => ()), fits.map (fun f => f.bind score))
+
+structure CvOut (α β ε σ : Type) where
+  result : Except ε (List (List σ))
+  finalR : List α
+  finalT : List β
+
+/-- `cross_validate(k, parameters, eval)` on a dataset: `iter_fold` with the closure
+"fit every parameter set on the training view", then per fold predict + eval on the
+validation view, accumulate, divide by `k`.  `params[m] (trainR, trainT)` is `Fit::fit`,
+`score md (validR, validT)` is predict-then-eval.  `none` = `iter_fold` panics.  The
+buffers come back through `iter_fold` (the fits run inside it, the evaluations after it). -/
+def crossValidateOn {α β ε μ σ} [Add σ] [Div σ] [OfNat σ 0] [NatCast σ]
+    (stdR stdT : Bool) (n k p t : Nat) (recs : List α) (tgts : List β)
+    (params : List (List α × List β → Except ε μ))
+    (score : μ → List α × List β → Except ε (List σ)) (ntargets : Nat) :
+    Option (CvOut α β ε σ) :=
+  match iterFoldLayout stdR stdT n k p t recs tgts with
+  | none => none
+  | some o =>
+    let folds := (o.trains.zip o.valids).map fun (tr, va) =>
+      scriptOf (params.map fun f => f tr) (fun md => score md va)
+    some { result := crossValidate k params.length ntargets folds,
+           finalR := o.finalR, finalT := o.finalT }
+
+/-- `cross_validate_single`: the evaluation closure returns one number, wrapped by `arr0`;
+the result is one number per model (`Array1`, the row of the `(m)`-shaped accumulator). -/
+def crossValidateSingleOn {α β ε μ σ} [Add σ] [Div σ] [OfNat σ 0] [NatCast σ]
+    (stdR stdT : Bool) (n k p : Nat) (recs : List α) (tgts : List β)
+    (params : List (List α × List β → Except ε μ))
+    (score1 : μ → List α × List β → Except ε σ) :
+    Option (Except ε (List σ) × List α × List β) :=
+  match crossValidateOn stdR stdT n k p 1 recs tgts params
+      (fun md va => match score1 md va with | .ok x => .ok [x] | .error e => .error e) 1 with
+  | none => none
+  | some o =>
+    some (match o.result with | .ok rows => .ok (rows.map fun r => r.headD 0) | .error e => .error e,
+          o.finalR, o.finalT)
+
+/-- `Labels::label_count` of one target column, read off at a label: the number of
+occurrences (the hash map's value; absent = 0). -/
+def labelCount {γ} [BEq γ] (col : List γ) (l : γ) : Nat := col.count l
+
+/-- `CountedTargets::new_targets` on the two parts of a fold pair (one target column):
+the label counts are recomputed from the part's own targets. -/
+def foldCounted {γ} [BEq γ] (k : Nat) (tgts : List γ) :
+    Option (List ((List γ × (γ → Nat)) × (List γ × (γ → Nat)))) :=
+  (foldPairs k tgts).map fun ps => ps.map fun (tr, va) => ((tr, labelCount tr), (va, labelCount va))
+
 end LinfaSpec.Fold
